@@ -173,6 +173,7 @@ class Sim:
         self.findings = []         # (rule, key, ok, node, detail)
         self.views = []            # (oid, dtype term or None, node)
         self.none_uses = []        # (ctx, node, text)
+        self.unbound = []          # (ctx, node, name, function): process global assigned without `global`
         self.attr_stores = []      # (ctx, node)
         self.depth = 0
         self.cur_node = None
@@ -493,6 +494,12 @@ class Sim:
         if name in fr.local_names:
             if name in fr.locals:
                 return fr.locals[name]
+            mi = self.world.mods[fr.rel]
+            if name in mi.proc_globals and name not in fr.globals_decl:
+                # assigned in this function without a `global` declaration: Python makes it a local, the read raises UnboundLocalError
+                self.unbound.append((self.ctx, self.cur_node, name, fr.fn.name))
+                fr.globals_decl = set(fr.globals_decl) | {name}
+                return self.read_global((fr.rel, name))
             raise Unsup(f"local `{name}` of {fr.fn.name} read before it is bound on this path")
         return self.lookup_module(name, fr.rel)
 
